@@ -27,8 +27,33 @@ def must_follow(body, block, through_blocks):
     return body.must_pass(body.succ[block], through_blocks)
 
 
+def waker_store_positions(body, prog, depth):
+    """Positions (block, idx) at which the caller's waker is certainly stored in Conduit.waker: a direct
+    `self.waker = Some(cx.waker().clone())`, or a call of a local helper that does so on every path."""
+    out = []
+    for w in field_writes(body, COND, "waker"):
+        rv = w[2]
+        src = body.sources(rv[1]) if rv[0] == "use" else []
+        deep = body.sources(rv[1], stop_at_calls=False) if rv[0] == "use" else []
+        if any(s[0] == "call" and s[1].via_name == "clone" for s in src) and any(s[0] == "call" and s[1].name == "waker" for s in deep) and any(s[0] == "agg" and s[2] == "Some" for s in src):
+            out.append((w[0], w[1], w[3], "direct"))
+    if depth > 0:
+        for c in body.calls:
+            cb = prog.body_of_call(c)
+            if cb is None or cb.defpath == body.defpath:
+                continue
+            inner = waker_store_positions(cb, prog, depth - 1)
+            if inner:
+                ok, _ = cb.must_pass([0], {p[0] for p in inner})
+                if ok:
+                    out.append((c.block, len(body.stmts(c.block)), c.line, "via " + cb.defpath.split("::")[-1]))
+    return out
+
+
 def conduit_rules(ctx, c, cfg):
     sfx = "" if cfg == "default" else "[%s]" % cfg
+    from mirlib import Program
+    prog = Program(c.facts, [BC])
 
     with ctx.rule("C12.R1" + sfx, "T3", "every mutation of Conduit.data / closed is followed by Conduit::wake on every path", floor=3) as r:
         n = 0
@@ -53,7 +78,8 @@ def conduit_rules(ctx, c, cfg):
                     continue
                 n += 1
                 # the wake must be the Conduit::wake of *self*
-                direct = {x.block for x in b.calls if x.is_method(COND, "wake")}
+                # wake() itself, or a local helper that calls wake() on every path (interprocedural must-summary)
+                direct = prog.blocks_must_calling(b, lambda x: x.is_method(COND, "wake"), depth=ctx.depth)
                 ok, wit = must_follow(b, blk, direct)
                 r.check(ok, "%s/%s=>wake" % (b.meta.get("name"), what.split(" ")[0]), b.loc(line),
                         "%s is followed by self.wake() on every path to return" % what,
@@ -80,19 +106,12 @@ def conduit_rules(ctx, c, cfg):
             if not pend:
                 raise AnchorMissing("%s: no Poll::Pending return" % nm)
             ws = field_writes(b, COND, "waker")
+            stores = waker_store_positions(b, prog, ctx.depth)
             for (blk, idx, ops, line, _, _) in pend:
-                doms = [w for w in ws if b.pos_dominates((w[0], w[1]), (blk, idx))]
-                good = False
-                for w in doms:
-                    src = b.sources(w[2][1]) if w[2][0] == "use" else []
-                    has_clone = any(s[0] == "call" and s[1].via_name == "clone" for s in src)
-                    # the clone's argument must come from cx.waker()
-                    from_cx = any(s[0] == "call" and s[1].name == "waker" for s in b.sources(w[2][1], stop_at_calls=False)) if w[2][0] == "use" else False
-                    some = any(s[0] == "agg" and s[2] == "Some" for s in src)
-                    good = good or (has_clone and from_cx and some)
+                good = any(b.pos_dominates((st[0], st[1]), (blk, idx)) for st in stores)
                 r.check(good, "%s/Pending<=waker-store" % nm, b.loc(line),
-                        "Pending is dominated by self.waker = Some(cx.waker().clone())",
-                        "Pending can be returned without registering the caller's waker (lost wake-up)")
+                        "Pending is dominated by self.waker = Some(cx.waker().clone()) (%s)" % ", ".join(sorted({st[3] for st in stores})),
+                        "Pending can be returned without (unconditionally) registering the caller's waker (lost wake-up)")
                 g = guards(b, blk)
                 txt = "; ".join("%s=%s" % (d, l) for d, l, _ in g)
                 r.check(any("." + guard_field in d for d, l, _ in g), "%s/Pending-guard" % nm, b.loc(line),
@@ -101,8 +120,8 @@ def conduit_rules(ctx, c, cfg):
                 r.check(any(("." + other) in d and l == "false" for d, l, _ in g), "%s/Pending-not-closed" % nm, b.loc(line),
                         "Pending only on the closed == false edge", "Pending can be returned on a closed channel (waits for ever) [%s]" % txt)
             # the waker is stored nowhere else: one slot, only on the waiting edge
-            for w in ws:
-                r.check(any(b.pos_dominates((w[0], w[1]), (p[0], p[1])) for p in pend), "%s/waker-store-only-when-pending" % nm, b.loc(w[3]),
+            for w in stores:
+                r.check(any(b.pos_dominates((w[0], w[1]), (p[0], p[1])) for p in pend), "%s/waker-store-only-when-pending" % nm, b.loc(w[2]),
                         "the waker slot is written only on a path that returns Pending", "waker stored on a path that does not return Pending: may overwrite the peer's waker")
 
     with ctx.rule("C12.R3" + sfx, "T4+T8", "monitor discipline: Conduit is only touched under self.inner.lock(); halves are not Clone; one constructor", floor=6) as r:
